@@ -483,6 +483,8 @@ func main() {
 			fb := 2
 			if c.Thorough() {
 				fb = 3
+			} else if p.Calls > 1 {
+				fb = 1 // quick: the two-call scenario is the largest tree; one non-default free choice keeps the tier inside its budget
 			}
 			return sx.Scenario[params]{Name: "reconnect", Params: p, MaxSteps: 20000, FreeBound: fb, Body: body, Check: check}
 		}
